@@ -1133,3 +1133,21 @@ Proof.
   - cbn. split; [left; reflexivity|]. intros x [<-|[<-|[]]]; lia.
   - vm_compute. discriminate.
 Qed.
+
+(* packaged for Props/C20.v *)
+Lemma period_offsets_correct_proof pbd days fl : length fl = length days ->
+  (offsets_pre pbd days fl ->
+     get_period_offsets pbd days (Some fl) = Ok (offsets_spec pbd days fl)) /\
+  ((exists d, In (d, true) (combine days fl) /\ ~ idx_ok pbd d) ->
+     get_period_offsets pbd days (Some fl) = OOB 2).
+Proof.
+  intros H. split; [exact (period_offsets_flags_ok pbd days fl H)|exact (period_offsets_flags_oob pbd days fl H)].
+Qed.
+
+Lemma period_offsets_noflags_correct_proof pbd days :
+  ((forall d, In d days -> idx_ok pbd d) ->
+     get_period_offsets pbd days None = Ok (map (wrap_get pbd) days)) /\
+  ((exists d, In d days /\ ~ idx_ok pbd d) -> get_period_offsets pbd days None = OOB 1).
+Proof.
+  split; [exact (period_offsets_noflags_ok pbd days)|exact (period_offsets_noflags_oob pbd days)].
+Qed.
